@@ -465,6 +465,48 @@ func runC10(tier string, seed uint64) {
 					}
 				}
 			}
+			if kind == "mem" && s.st.Ext == nil {
+				// (outside the model, in a bucket of its own) every version of one key removed by its id, newest
+				// first or oldest first: the key next to it stays readable and listed
+				vb := "bkver"
+				do(s.h, Req{Method: "PUT", Path: "/" + vb})
+				do(s.h, Req{Method: "PUT", Path: "/" + vb + "?versioning", Body: []byte("<VersioningConfiguration><Status>Enabled</Status></VersioningConfiguration>")})
+				do(s.h, Req{Method: "PUT", Path: "/" + vb + "/bystander", Body: []byte("never addressed again")})
+				var vids []string
+				for n := 0; n < 2+i%2; n++ {
+					pr := do(s.h, Req{Method: "PUT", Path: "/" + vb + "/gone", Body: []byte(fmt.Sprint("version ", n))})
+					vids = append(vids, pr.Header.Get("X-Amz-Version-Id"))
+				}
+				if i%4 < 2 {
+					for l, r := 0, len(vids)-1; l < r; l, r = l+1, r-1 {
+						vids[l], vids[r] = vids[r], vids[l]
+					}
+				}
+				var dst []int
+				for _, v := range vids {
+					dst = append(dst, do(s.h, Req{Method: "DELETE", Path: "/" + vb + "/gone?versionId=" + queryEscape(v)}).Status)
+				}
+				lr := do(s.h, Req{Method: "GET", Path: "/" + vb})
+				l2 := do(s.h, Req{Method: "GET", Path: "/" + vb + "?list-type=2&prefix=b"})
+				gr := do(s.h, Req{Method: "GET", Path: "/" + vb + "/bystander"})
+				g2 := do(s.h, Req{Method: "GET", Path: "/" + vb + "/gone"})
+				lk := xmlContentsKeys(string(lr.Body))
+				msg := fmt.Sprintf("%s: bucket %q holds \"bystander\" and %d versions of \"gone\"; the versions deleted by id (%v): the bucket listing answers %d %s keys %q, the V2 listing under prefix b %d, GET bystander %d %q, GET gone %d", kind, vb, len(vids), dst, lr.Status, lr.Panic, lk, l2.Status, gr.Status, gr.Body, g2.Status)
+				if lr.Status == 200 && l2.Status == 200 && len(lk) == 1 && lk[0] == "bystander" && gr.Status == 200 && string(gr.Body) == "never addressed again" && g2.Status == 404 {
+					emit("c10", "GOOD", hs(msg))
+				} else {
+					emit("c10", "BAD", hs("S:another-key-unlistable-after-versions-deleted-by-id "+msg))
+				}
+				// and the bucket can be emptied and removed again
+				for _, vr := range xmlAll(string(do(s.h, Req{Method: "GET", Path: "/" + vb + "?versions"}).Body), "VersionId") {
+					do(s.h, Req{Method: "DELETE", Path: "/" + vb + "/bystander?versionId=" + queryEscape(vr)})
+				}
+				if rr := do(s.h, Req{Method: "DELETE", Path: "/" + vb}); rr.Status != 204 {
+					emit("c10", "BAD", hs(fmt.Sprintf("S:bucket-with-no-version-left-cannot-be-removed %s: bucket %q, every version of every key deleted by id: DELETE of the bucket answers %d", kind, vb, rr.Status)))
+					do(s.h, Req{Method: "DELETE", Path: "/" + vb, Header: [][2]string{{"x-minio-force-delete", "true"}}})
+				}
+				nontrivial(fmt.Sprint(kind, "versions-deleted-by-id", i%4))
+			}
 			if !isSingle(kind) && s.st.Ext == nil {
 				// last step (the model has no such operation): Minio's force-delete of a bucket with content.
 				// Whatever it answers, only that bucket may change.
